@@ -2,6 +2,7 @@
 //! allocate/deallocate histories and prints one observation per operation.  All addresses are
 //! printed relative to an 8192-aligned block base (never absolute).
 //! usage: c15 <exh|rnd|wit> <component> <level> <shard> <nshards> <seed> [ncases]
+//!        c15 drn <pool|fixed|calpool> <level> <shard> <nshards> <seed> <case header parameters...>   (search mode)
 //!   component = pool | fixed | bump | onechunk | calpool | calbump | codec | mtd | dyn | pubsub
 extern crate iceoryx2_bb_loggers;
 
@@ -73,8 +74,19 @@ fn main() {
     let a: Vec<String> = std::env::args().collect();
     if a.len() < 7 { eprintln!("usage: c15 <exh|rnd|wit> <component> <level> <shard> <nshards> <seed> [ncases]"); std::process::exit(2); }
     let args = Args { mode: a[1].clone(), level: a[3].parse().unwrap(), shard: a[4].parse().unwrap(), nshards: a[5].parse().unwrap(),
-        seed: a[6].parse().unwrap(), ncases: a.get(7).map(|s| s.parse().unwrap()).unwrap_or(100) };
+        seed: a[6].parse().unwrap(), ncases: a.get(7).and_then(|s| s.parse().ok()).unwrap_or(100) };
     let mut out = Out { w: std::io::BufWriter::with_capacity(1 << 20, std::io::stdout()) };
+    if a[1] == "drn" {
+        // search mode: one explicit layout, see bb_h::drain_run
+        match a[2].as_str() {
+            "pool" => bb_h::drain_pool(&mut out),
+            "fixed" => bb_h::drain_fixed(&mut out),
+            "calpool" => cal_h::drain_calpool(&mut out),
+            _ => {}
+        }
+        let _ = out.w.flush();
+        return;
+    }
     match a[2].as_str() {
         "pool" => bb_h::run_pool(&args, &mut out),
         "fixed" => bb_h::run_fixed(&args, &mut out),
